@@ -239,7 +239,7 @@ def run(ctx: Ctx):
     cnt = [n for n in own_nodes(pr.node) if isinstance(n, ast.AugAssign) and ast.unparse(n.target).startswith("outgoing_count[")]
     same_block = bool(adds) and bool(cnt) and _enclosing_block(pr.node, cfg.stmt_node_containing(adds[0]).ast) is _enclosing_block(pr.node, cnt[0])
     ctx.ob("C15-O4", "R16 PAIRED-EFFECTS", pr, "in-links and out-degree count every listed edge the same number of times (list + append next to the counter increment)", multiset and per_listing and same_block, "a de-duplicated in-link set with a per-listing out-degree (or the reverse) makes a node hand out only part of its score: mass leaks", node=adds[0] if adds else pr.node)
-    ctx.ob("C15-O4", "R18 table", pr, "stopping rule is the L-infinity change of the new scores", "max_diff = max(max_diff, abs(new_scores[v] - scores[v]))" in t and "max_diff = 0.0" in t, "", node=pr.node)
+    ctx.ob("C15-O4", "R18 table", pr, "stopping rule aggregates the change |new - old| of every node of the sweep (sum or maximum), starting from zero in each iteration", ("max_diff += abs(new_scores[v] - scores[v])" in t or "max_diff = max(max_diff, abs(new_scores[v] - scores[v]))" in t) and "max_diff = 0.0" in t, "", node=pr.node)
     generic_sweeps(ctx)
 
 
